@@ -137,6 +137,24 @@ def main():
         guarded(res, 'rf_rows', lambda: trip(hs.represent_fine(rows=rows, restrict=False, truncate=c['truncate'])))
         guarded(res, 'rf_rows_restrict', lambda: trip(hs.represent_fine(rows=rows, restrict=True, truncate=c['truncate'])))
         guarded(res, 'pt', lambda: trip(hs.prolongate_to(fine)))
+        # chain with warm index caches: fine (already the target of a prolongate_to, so its cached
+        # canonical-index tables are filled) is copied WITH its caches and refined further
+        if c.get('chain_steps'):
+            def chain():
+                fine2 = fine.copy()
+                used2 = []
+                apply_steps(fine2, [tuple(s) for s in c['chain_steps']], used2)
+                o = {'used': used2, 'hs': struct(fine2)}
+                o['pt12'] = trip(fine.prolongate_to(fine2))
+                o['pt02'] = trip(hs.prolongate_to(fine2))
+                o['rf'] = trip(fine2.represent_fine(truncate=False))
+                # the same refinement in place on an object whose caches are warm
+                fine3 = fine
+                old = fine.copy()
+                apply_steps(fine3, [tuple(s) for s in c['chain_steps']], [])
+                o['pt_inplace'] = trip(old.prolongate_to(fine3))
+                return o
+            guarded(res, 'chain', chain)
         guarded(res, 'thb_to_hb', lambda: trip(hs.thb_to_hb()))
         guarded(res, 'hb_to_thb', lambda: trip(hs.hb_to_thb()))
         # evaluation routes
